@@ -16,6 +16,7 @@ import (
 
 	"verifharness/ev"
 	"verifharness/fw"
+	"verifharness/gen"
 )
 
 // C26 — the public array byte-conversion helpers of ce/arrays.go are exact little-endian inverses and
@@ -50,7 +51,8 @@ func init() {
 			"elements are arbitrary bit patterns with boundary values, signalling/quiet NaN payloads, infinities, subnormals and -0 mixed in. Oracles per case: XAsBytes(s) equals an independent " +
 			"encoding/binary.LittleEndian rendering; BytesToX(XAsBytes(s)) equals s bit for bit; for a random byte buffer b taken as an (often unaligned) sub-slice of a larger buffer, BytesToX(b) equals the " +
 			"little-endian reading and XAsBytes(BytesToX(b)) equals b; the iterator (marshaler) hands OnArray exactly XAsBytes(s) with the right type and count; the builder (untyped and []T template) turns an OnArray " +
-			"event carrying XAsBytes(s) into a slice equal to s bit for bit; CBE (and for NaN-free data CTE) encoder->decoder carries XAsBytes(s) unchanged and ce.MarshalToCBEDocument(s) decodes to the same bytes. " +
+			"event carrying XAsBytes(s) into a slice equal to s bit for bit, and so does the same data delivered as a chunked array (random chunks and data events, from a producer reusing one buffer) " +
+			"and a multi-chunk CBE document of it decoded by ce.UnmarshalFromCBEDocument / ce.UnmarshalCBE(slow reader) into []T and interface{}; CBE (and for NaN-free data CTE) encoder->decoder carries XAsBytes(s) unchanged and ce.MarshalToCBEDocument(s) decodes to the same bytes. " +
 			"The whole case list runs under three binaries: normal, -tags purego, and -race (checkptr). Non-trivial = length >= 2 with >= 2 distinct element values; distinct = (type, bytes).",
 		Assumptions: []string{"host byte order is whatever the machine running the check has (little-endian here); the big-endian code paths of internal/arrays are not executed",
 			"byte buffers whose length is not a multiple of the element size are not asserted (the property is silent)",
@@ -66,6 +68,7 @@ func init() {
 					m["slices."+v+"."+t] = 71
 				}
 				m["unaligned_subslices."+v] = 100
+				m["chunked_unmarshal_compared."+v] = 500
 				m["nan_payload_elements."+v] = 100
 			}
 			return m
@@ -516,6 +519,77 @@ func c26Run[T any](c *fw.Ctx, n int, k c26Kind[T]) {
 				continue
 			}
 			c.Inc("marshal_cbe_compared." + h.name)
+		}
+	}
+	// the same array delivered in chunks (several chunks, several data events per chunk): through the CBE encoder and the
+	// document entry points into []T and interface{}, and straight into the builder from a producer that reuses its buffer
+	if n >= 2 && (c.Idx < 9*71 || c.Idx%2 == 0) {
+		c.Region("chunked")
+		body := gen.ChunkBodyOpt(r, k.size*8, uint64(n), got, false, r.Intn(2) == 0)
+		cstream := append(append([]ev.Event{{K: ev.BD}, {K: ev.VER}, {K: ev.ABEGIN, AT: k.at}}, body...), ev.Event{K: ev.ED})
+		nchunks := 0
+		for _, e := range body {
+			if e.K == ev.CHUNK {
+				nchunks++
+			}
+		}
+		sameElems := func(obj interface{}) bool {
+			res, isT := obj.([]T)
+			if !isT || len(res) != n {
+				return false
+			}
+			for i := range res {
+				if k.toBits(res[i]) != bits[i] {
+					return false
+				}
+			}
+			return true
+		}
+		cdoc, fi, pv := encodeWithRules(ce.NewCBEEncoder(cfg), cstream, cfg)
+		if fi >= 0 {
+			fail("cbe-encode-panic:chunked", map[string]interface{}{"panic": ev.PanicString(pv), "stream": short(ev.LogString(cstream), 600)})
+		} else {
+			for _, typed := range []bool{false, true} {
+				var tmpl interface{}
+				if typed {
+					tmpl = []T{}
+				}
+				name := map[bool]string{false: "untyped", true: "typed"}[typed]
+				var o1, o2 interface{}
+				var e1, e2 error
+				p, st := fw.Guard(func() {
+					o1, e1 = ce.UnmarshalFromCBEDocument(cdoc, tmpl, cfg)
+					o2, e2 = ce.UnmarshalCBE(&c14SlowReader{data: cdoc, step: 1 + r.Intn(9)}, tmpl, cfg)
+				})
+				switch {
+				case p != nil || e1 != nil || e2 != nil:
+					fail("chunked-unmarshal-failed:"+name, map[string]interface{}{"panic": fmt.Sprint(p), "stack": st, "err": errStr(e1), "err_reader": errStr(e2), "doc": hexs(cdoc)})
+				case !sameElems(o1):
+					fail("chunked-unmarshal-differs:"+name, map[string]interface{}{"chunks": nchunks, "doc": hexs(cdoc), "got": short(fmt.Sprintf("%T %v", o1, o1), 300)})
+				case !sameElems(o2):
+					fail("chunked-unmarshal-differs:"+name+":reader", map[string]interface{}{"chunks": nchunks, "doc": hexs(cdoc), "got": short(fmt.Sprintf("%T %v", o2, o2), 300)})
+				default:
+					c.Inc("chunked_unmarshal_compared." + vn)
+					if nchunks >= 2 {
+						c.Inc("chunked_unmarshal_compared.multi-chunk")
+					}
+				}
+				var obj interface{}
+				p, st = fw.Guard(func() {
+					bld := builder.NewSession(nil, cfg).NewBuilderFor(tmpl)
+					if idx, pv := ev.ReplayScratch(bld, cstream, make([]byte, 4096)); idx >= 0 {
+						panic(pv)
+					}
+					obj = bld.GetBuiltObject()
+				})
+				if p != nil {
+					fail("builder-panic:chunked:"+name, map[string]interface{}{"panic": fmt.Sprint(p), "stack": st})
+				} else if !sameElems(obj) {
+					fail("builder-element:chunked:"+name, map[string]interface{}{"chunks": nchunks, "stream": short(ev.LogString(cstream), 600), "got": short(fmt.Sprintf("%T %v", obj, obj), 300)})
+				} else {
+					c.Inc("builder_chunked_compared." + vn)
+				}
+			}
 		}
 	}
 	if n <= 300 && !hasNaN {
